@@ -245,6 +245,23 @@ def run(ctx: Ctx):
         ok = txt(w.test) == f"{x} <= self._n" and f"self._tree[{x} - 1] += delta" in body_t and init == ["i + 1"]
         shape = f"1-based walk from i + 1: `while {x} <= n: tree[{x} - 1] += delta`"
     ctx.ob("C20-O3", "R18 table", up, "update adds delta to every node on the walk up to and including the last node of the tree", ok and step_ok, f"expected {shape}; found test `{txt(w.test)}`, body {body_t}, start {init}: a walk that stops one node early loses updates in the last block", node=w)
+    # every delta reaches the walk: a return before the loop may depend on delta only through an exact zero test
+    ucfg = cfg_of(up.node)
+    head = ucfg.node_of(w)
+    skips = []
+    for r_ in own_nodes(up.node):
+        if isinstance(r_, ast.Return):
+            rn_ = ucfg.node_of(r_)
+            if rn_ is None or (head is not None and ucfg.dominates(head, rn_)):
+                continue
+            for gd in ucfg.guards(rn_):
+                t_ = gd.test.ast if gd.test is not None else None
+                if t_ is None or "delta" not in names_in(t_):
+                    continue
+                exact = ast.unparse(t_).replace(" ", "") in ("delta==0", "delta==0.0", "notdelta", "0==delta", "0.0==delta")
+                if not exact:
+                    skips.append(t_)
+    ctx.ob("C20-O3", "R12 NO-CARDINALITY-CUTOFF", up, "every non-zero delta reaches the walk (an early return may test delta only for being exactly zero)", not skips, f"`{ast.unparse(skips[0]) if skips else ''}` returns before the walk: the plain array would add this delta, the tree drops it, and every prefix that covers the index differs from then on", node=skips[0] if skips else up.node)
     ok = len(step_ctor) == 1 and canon(step_ctor[0]) == want
     ctx.ob("C20-O3", "R18 SIBLING-AGREEMENT (expression)", up, "constructor propagation uses the parent step i | (i + 1), the step of the update walk", ok, f"ctor `{ast.unparse(step_ctor[0]) if step_ctor else '?'}` / update family {fam}", node=up.node)
     tc = ast.unparse(fi.node)
@@ -356,7 +373,19 @@ def _t_rename(tree):
     M.rename_local(g, "size_map", "sizes")
 
 
+def _v_update_skips_tiny_delta(tree):
+    g = M.find_func(tree, "FenwickTree.update")
+    g.body.insert(1 if isinstance(g.body[0], ast.Expr) else 0, M.stmts("if -1e-12 < delta < 1e-12:\n    return")[0])
+
+
+def _t_update_skips_zero_delta(tree):
+    g = M.find_func(tree, "FenwickTree.update")
+    g.body.insert(1 if isinstance(g.body[0], ast.Expr) else 0, M.stmts("if delta == 0:\n    return")[0])
+
+
 VARIANTS = [
+    M.Variant("update returns early for |delta| < 1e-12 (seed C20-M8)", DS, _v_update_skips_tiny_delta, "C20-O3"),
+    M.Variant("twin: update returns early for delta == 0", DS, _t_update_skips_zero_delta, None),
     M.Variant("connected() writes a rank", DS, _v_connected_writes, "C20-O1"),
     M.Variant("component_sizes() rewrites parents and the counter", DS, _v_sizes_mutates, "C20-O1"),
     M.Variant("union forgets to decrement the counter", DS, _v_union_no_count, "C20-O2"),
